@@ -212,13 +212,17 @@ def solve_one(job):
     full = int(timeout_ms * scale)
     EM = {"smt.mbqi": False, "smt.random_seed": 7}
     MB = {"smt.ematching": False}
-    stages = [("z3", {}, quick), ("z3-ematch", EM, quick), ("z3-mbqi", MB, quick)]
+    stages = [("z3", {}, quick), ("z3-ematch", EM, quick), ("z3-mbqi", MB, quick),
+              ("z3-seed3", {"smt.random_seed": 3}, quick), ("z3-ematch-seed11", {"smt.mbqi": False, "smt.random_seed": 11}, quick)]
     cvc5_ok = use_cvc5 and "define-fun" not in text and "(_ map" not in text  # z3-only syntax
     if cvc5_ok and has_str:
         stages.append(("cvc5", None, 2 * quick))
     if text_ground is not None:
         stages.append(("ground", None, full))
     stages += [("z3", {}, full), ("z3-ematch", EM, full), ("z3-mbqi", MB, full)]
+    # (E-matching is sensitive to the order in which terms happen to be created: two more fixed seeds per configuration, quick ones
+    # early and full ones last; still deterministic, the seeds are constants)
+    stages += [("z3-seed23", {"smt.random_seed": 23}, full), ("z3-ematch-seed31", {"smt.mbqi": False, "smt.random_seed": 31}, full)]
     if cvc5_ok:
         stages.append(("cvc5", None, 2 * full))
     st, model, why, backend = "unknown", None, "", "z3"
